@@ -6,6 +6,9 @@ PROPS = ["C%02d" % i for i in range(1, 20)]
 
 # property -> (technique, level text, design ref)
 CLAIMS = {
+ "C03": ("set agreement over type-checked field accesses (saved vs restored checkpoint fields, per type and per Save/Resume implementation; gob registrations), literal-completeness, must-pass-through / error-gating path rules, constant flag checks, control-dependence provenance (go/ssa)",
+         "Decides structural necessary conditions, not the behaviour: every checkpoint field is saved and restored (type level, and per Bowl/EntryWriter implementation: what its Save writes its own Resume reads); the literal handed to SaveConsumer.Save is complete; entry writers report an offset only after Flush and a checked fsync; reopening never truncates and repositions from the checkpoint (both offsets for the overlay writer); every successful series end finalizes the writer; work lists are de-duplicated by their owners; checkpoint payload types are gob-registered; checkpoints are requested inside the loops and offered. Agreement of the four state layers at every interruption point and content equality after resume are NOT decided.",
+         "DESIGN.md 4 (C03)"),
  "C05": ("control-dependence (edge-dominance) rules over go/ssa: healthy-verdict guards, literal-shape ordering of Wound ranges, guard-token classification of wound emission sites, must-consume path rule for the aggregation loop",
          "Decides structural necessary conditions, not the behaviour: a block is declared healthy only under index-in-range and strong-hash equality (both sibling validators); every FILE/CLOSED_FILE wound literal has Start <= End by construction; every deviation test the property enumerates (missing/kind/destination/open error/shorter/longer) controls a wound emission; the aggregator keeps, merges or forwards every incoming wound and flushes before close. That reported wounds cover every differing offset (block arithmetic) is NOT decided.",
          "DESIGN.md 4 (C05)"),
